@@ -15,6 +15,7 @@ CHECK = {
         {"fn": P + "vC16_mixedModes", "replay": "model-only", "cases": {"modes": [0, 1, 2, 3]}, "opts": TURN_OPTS},
         {"fn": P + "vC16_retune", "replay": "model-only", "cases": {"policy": [1, 2], "toggle": [0, 1, 2, 3]}, "opts": TURN_OPTS},
     ],
+    "opts_thorough": {"rounds": 5},
     "opts": {"unwind": 4},
     "explanation": ("requestState.setCallback/complete/stopTimeoutIfSet, PID.registerRequestState/deregisterRequestState/completeRequest/cancelInFlightRequests "
                     "with the real internal/xsync.Map: sequential bookkeeping against counters, and completeRequest (on the turn) racing cancelInFlightRequests "
